@@ -473,12 +473,16 @@ func runCase(cs *caseT) ([]map[string]interface{}, error) {
 			_, err := cl.GetQuotaRoot(arg).Wait()
 			done <- statusOf(err)
 		case "APPEND":
-			chunks := map[string][]int{"small": {10}, "at": {4096}, "over": {4097}, "split": {3, 7}, "bigsplit": {16, 6000}}[cs.Case.Class]
+			chunks := map[string][]int{"small": {10}, "at": {4096}, "over": {4097}, "split": {3, 7}, "bigsplit": {16, 6000}, "longname": {10}}[cs.Case.Class]
 			size := 0
 			for _, n := range chunks {
 				size += n
 			}
-			cmd := cl.Append("mb", int64(size), nil)
+			name := "mb"
+			if cs.Case.Class == "longname" {
+				name = argOf("long") // a literal of its own: if the server refuses THAT one, nothing of the message may follow
+			}
+			cmd := cl.Append(name, int64(size), nil)
 			for _, n := range chunks {
 				cmd.Write([]byte(strings.Repeat("x", n))) // errors are looked at when the literal is closed
 			}
